@@ -46,6 +46,25 @@ func main() {
 			e.Strs("sealerCaps", caps, "writeSealedFraction: last argument (block capacity) of the ID and LID block generators")
 		}
 
+		// writeSortedDocs: what is returned from the pooled docBlocksWriter (must be copies: the writer goes back to the pool)
+		if f, err := r.Load("frac/active_sealer.go"); err != nil {
+			e.Missing("sortedDocsReturns", err)
+		} else if fd := f.Func("", "writeSortedDocs"); fd == nil {
+			e.Missing("sortedDocsReturns", "writeSortedDocs not found")
+		} else {
+			var last []string
+			ast.Inspect(fd.Body, func(n ast.Node) bool {
+				if x, ok := n.(*ast.ReturnStmt); ok && len(x.Results) == 4 && f.Render(x.Results[3]) == "nil" {
+					last = nil
+					for _, r := range x.Results {
+						last = append(last, f.Render(r))
+					}
+				}
+				return true
+			})
+			e.Strs("sortedDocsReturns", last, "writeSortedDocs: the successful return statement")
+		}
+
 		// sealed_ids.go: the reader's block index function
 		if f, err := r.Load("frac/sealed_ids.go"); err != nil {
 			e.Missing("idBlockIndexExpr", err)
